@@ -631,15 +631,25 @@ def run(ctx):
         'one parent is deblended or an error branch is taken; distinct = distinct (scene, arguments, order)')
     ctx.assumptions += [
         'make_markers / skimage watershed / contrast pruning (apply_watershed) are not modelled: their output '
-        'for each parent is recorded from the real run and is an arbitrary input of the model and theorems',
+        'for each parent is recorded from the real run and is an arbitrary (universally quantified) input of the '
+        'model and of every theorem; the footprint guard, the one-label test and the consecutive relabel of '
+        'deblend_source ARE modelled, so (G) and (R) are theorems (per_source_result_wellformed)',
+        'schedule theorems assume valid_schedule: concurrent.futures.as_completed yields every submitted future '
+        'exactly once (the completion order is a permutation of the submission indices)',
         'the parallel code path is exercised with an in-process executor delivering futures in chosen '
         'completion orders; real spawn pools are sampled (the OS scheduler cannot be enumerated)',
+        'labels are unbounded naturals in the model; the integer dtype enters only through the ValueError of '
+        'fix C06-1 (final max_label > dtype maximum); nproc=None (cpu_count) and the progress bar are not modelled',
+        'input_not_written is immediate for the functional model (it has no aliasing); the clause is tied to the '
+        'code by snapshotting the caller\'s array (and the data array) around every real call',
         'exception messages are not compared (with two failing parents the message names whichever future '
         'completed first); only the exception class is an observable']
     ctx.cov['partial_clauses'] = [
         'each child >= npixels: theorem child_size_ge_npixels_partial assumes (W) every label of the watershed '
-        'output has >= npixels pixels (skimage.watershed never shrinks a marker; _detect_sources drops smaller '
-        'markers); tested on every implementation output by the Python oracle']
+        'output covers >= npixels pixels of the cutout (skimage.watershed never shrinks a marker; _detect_sources '
+        'drops smaller markers); tested on every implementation output by the Python oracle',
+        'after fix C06-1 a call whose intermediate labels exceed the dtype maximum raises ValueError even when '
+        'relabel=True would bring the final labels back into range (clean refusal, not a wrong answer)']
     quick = ctx.tier == 'quick'
     nrand = 260 if quick else 2600
     cases = directed_cases() + [gen_case(ctx.rng, small=(i % 3 == 0)) for i in range(nrand)]
